@@ -17,7 +17,7 @@ CLAIMS = {
  "C08": ("proof", "payload and stamp frame clauses on every function under contract; get/get_mut/Index/IndexMut address exactly the slot of the id. 'Dropped exactly once' rests on Rust ownership and forbid(unsafe_code) and is a stated assumption.", "§4 C08", "Rust ownership semantics for Drop; Verus does not model Drop"),
  "C09": ("proof", "constructors and step functions of all nine traversals are under contract: sibling/children iterators against the ghost deque walk(node) / children_seq(node) (the documented order), ancestors/predecessors/reverse_children step laws, next_traverse/prev_traverse equal the documented depth-first step and are proved mutually inverse, Traverse/ReverseTraverse stop exactly at End(root)/Start(root), Descendants::next returns the next Start edge of Traverse. Whole-sequence theorems as lemmas over those contracts: traverse = tour_node (balanced, pre-order, confined to the subtree), reverse_traverse = its reversal, descendants = preorder_node (lemma_descendants_is_preorder).", "§4 C09", "predecessors only as a step law (previous sibling, else parent), not as a closed-form sequence"),
  "C10": ("proof", "next/next_back of children, following_siblings and preceding_siblings are verified against a ghost deque: front pulls pop the front, back pulls pop the back, both fused at empty; the three constructors are proved to establish the deque with the documented sequence (including parentless nodes, where the far end is found by walking).", "§4 C10", "none beyond the common trusted base"),
- "C11": ("proof", "accessor contracts: get/Index/IndexMut/get_node_id_at/count/is_empty/as_slice/usize::from/NonZeroUsize::from agree with the slot view (proved). get_node_id (raw pointer arithmetic) is outside Verus: Kani harnesses check the round trip on arenas of at most 3 slots with one removal and one recycling (quick tier: two harnesses, ~1 min; thorough tier: three, ~15 min); that part is BOUNDED and not counted as proved.", "§4 C11", "iter()/iter_mut()/Display delegate to std; get_node_id only bounded (Kani, <= 3 slots); a node of another arena cannot be checked in CBMC's pointer model"),
+ "C11": ("proof", "accessor contracts: get/Index/IndexMut/get_node_id_at/count/is_empty/as_slice/usize::from/NonZeroUsize::from agree with the slot view (proved). get_node_id: the four-statement raw-pointer idiom is replaced by the trusted primitive vx_slice_position (extraction rule R8, exact token match); the rest of the function is proved (a returned id names the slot holding the node and carries that slot's stamp). That a node of this arena is found at all (the round trip returns Some) depends on the pointer idiom: Kani harnesses check the round trip on arenas of at most 3 slots with one removal and one recycling (quick tier: two harnesses, ~1 min; thorough tier: three, ~15 min); that part is BOUNDED and not counted as proved.", "§4 C11", "iter()/iter_mut()/Display delegate to std; get_node_id: pointer idiom trusted (vx_slice_position), its completeness only bounded (Kani, <= 3 slots); a node of another arena cannot be checked in CBMC's pointer model"),
  "C12": ("proof", "a removed slot has no links (part of wf, hence after every operation), no link of a live node targets a removed slot or an old generation, inserts with a removed id in either position are refused without change, Node::reuse starts with no links.", "§4 C12", "none beyond the common trusted base"),
  "C17": ("other", "restricted claim: the extraction is repeated for all 16 subsets of {std, macros, par_iter, deser}; the functions under contract are token-identical in every subset (today: one variant; cfg attributes inside bodies are evaluated per subset); if variants differ, a bounded differential run of the real crate built with each variant's features looks for calls whose results differ (replayable witness), and every differing variant is verified against the same contracts; par_iter's body is checked syntactically. Whole-crate behaviour (pretty-printed text, serde, macros) is outside the claim.", "§4 C17", "only the functions under contract; identical extracted text is taken as identical behaviour because their only dependencies are core/alloc"),
  "C13": ("proof", "new/default/with_capacity/clear all yield the same three fields (empty, no free slots); reserve/with_capacity change nothing observable; every contract is a function of the three fields that derive(PartialEq) compares; the derive lists of Arena/Node/NodeData/NodeId/NodeStamp are themselves an obligation (a type that no longer derives Clone/PartialEq/Eq fails C13).", "§4 C13", "derive(Clone, PartialEq) are structural (a lost derive is undecided unless the witness step finds a history on which clone/== misbehave); the capacity guarantee of with_capacity/reserve is std's and cannot be a contract (no capacity in vstd's view of Vec): the three one-line functions are compared with the verified text and a change is handed to the witness step"),
@@ -41,7 +41,7 @@ for p in props:
             "replay_cmd_template": "./check --replay {path}",
             "engine": "vx",
             "level_claimed": {"category": cat, "text": text, "design_ref": ref},
-            "level_note": note + "; common trusted base: Verus+Z3, extraction rules R0-R7, panic primitives as obligations, structural derives, NonZeroUsize extensionality",
+            "level_note": note + "; common trusted base: Verus+Z3, extraction rules R0-R8, panic primitives as obligations, structural derives, NonZeroUsize extensionality",
             "technique": TECH if cat == "proof" else "per-feature mechanical extraction + token comparison; differing variants re-verified with Verus against the same contracts",
         })
 m = {
